@@ -213,11 +213,47 @@ func subC06(args []string) {
 		linkErr chan error
 		cancel  context.CancelFunc
 		answers chan []byte
+		inflight chan error // result of a call of OURS to this peer that the peer never answers (nil channel: none)
 	}
+	victims := 0
 	newVictim := func() *victim {
 		v := &victim{in: NewQueue(), inRes: NewQueue(), out: NewQueue(), outReq: NewQueue(), linkErr: make(chan error, 1), answers: make(chan []byte, 64)}
 		ctx, cancel := context.WithCancel(context.Background())
 		v.cancel = cancel
+		victims++
+		connected := make(chan string, 1)
+		lh := &rpc.LinkHooks{OnClientConnect: func(id string) {
+			select {
+			case connected <- id:
+			default:
+			}
+		}}
+		if victims%2 == 0 {
+			// every other hostile link also has one of our own calls in flight on it when the peer misbehaves
+			v.inflight = make(chan error, 1)
+			go func() {
+				var id string
+				select {
+				case id = <-connected:
+				case <-time.After(watchdog):
+					v.inflight <- errors.New("link never came up")
+					return
+				}
+				var r c6Remote
+				ok := false
+				waitFor(func() bool {
+					reg.ForRemotes(func(rid string, x c6Remote) error {
+						if rid == id {
+							r, ok = x, true
+						}
+						return nil
+					})
+					return ok
+				})
+				_, err := r.Ping(context.Background(), 7)
+				v.inflight <- err
+			}()
+		}
 		go func() {
 			for {
 				b, err := v.out.Get()
@@ -232,7 +268,7 @@ func subC06(args []string) {
 				v.linkErr <- reg.LinkMessage(ctx,
 					func(b json.RawMessage) error { return v.outReq.Put(b) }, func(b json.RawMessage) error { return v.out.Put(b) },
 					func() (json.RawMessage, error) { b, e := v.in.Get(); return b, e }, func() (json.RawMessage, error) { b, e := v.inRes.Get(); return b, e },
-					codec.Marshal, codec.Unmarshal, nil)
+					codec.Marshal, codec.Unmarshal, lh)
 			}()
 		} else {
 			pr, pw := io.Pipe()
@@ -247,7 +283,7 @@ func subC06(args []string) {
 						return v.outReq.Put(*m.Request)
 					},
 					func(m *rpc.Message[json.RawMessage]) error { return dec.Decode(m) },
-					codec.Marshal, codec.Unmarshal, nil)
+					codec.Marshal, codec.Unmarshal, lh)
 			}()
 		}
 		return v
@@ -292,6 +328,18 @@ func subC06(args []string) {
 				say("BAD the link ended but Link returned a nil error")
 			} else {
 				say("OK link-ended %q", err.Error())
+			}
+			if v.inflight != nil {
+				select {
+				case cerr := <-v.inflight:
+					if cerr == nil {
+						say("BAD our call to the misbehaving peer returned a nil error although the peer never answered it")
+					} else {
+						say("OK in-flight call failed %q", cerr.Error())
+					}
+				case <-time.After(watchdog):
+					say("BAD our call to the misbehaving peer still hangs after its link ended")
+				}
 			}
 			v.cancel()
 			v.in.Close(nil)
@@ -478,6 +526,10 @@ func runC07(rep *Report, tier string, seed int64) {
 				rep.ModelSteps++
 			}
 		}
+	}
+	// ---- the exposed graph is re-pointed between calls: the object held NOW is the one that runs
+	for _, api := range apis() {
+		c07Mutation(rep, api)
 	}
 	// ---- end to end: what runs
 	tl, rl := lkShape(newC6Local(), 3)
